@@ -1,24 +1,30 @@
-import Taskpool.Inv.QueueShell
+import Taskpool.Inv.QueuePutSteps
 /-! # C20 — the queue context manager marks every taken item processed exactly once
 
 Model: `Taskpool/Model/Queue.lean` (M2): `asyncio.Queue` + `async with queue as item` of
 `asyncio_taskpool.queue_context.Queue`.  A *history* is any list of `Input`s
-(`put x` · `spawn` a consumer · `join` = spawn a `join()` waiter · `cancel c` · `gate c ok|exc` = the body of
-consumer `c` ends normally / raises · `take` = code outside every consumer task calls `get_nowait()` and marks the
-item it got by hand with `item_processed()` · `run i` = the loop executes its `i`-th ready handle), applied to the
-empty queue.  Every theorem quantifies over **all** histories, hence over every interleaving of producers, consumers,
-hand marks, body failures and cancellations before / inside the block, and over every handle order.
+(`put x` = `put_nowait(x)` by non-task code, `QueueFull` on a full bounded queue · `produce x` = spawn a producer task
+`await queue.put(x)`, which waits in `_putters` while the queue is full · `cancelp p` = cancel producer `p` · `spawn` a
+consumer · `join` = spawn a `join()` waiter · `cancel c` · `gate c ok|exc` = the body of consumer `c` ends normally /
+raises · `take` = code outside every consumer task calls `get_nowait()` and marks the item it got by hand with
+`item_processed()` · `run i` = the loop executes its `i`-th ready handle — of a consumer, a producer or a joiner),
+applied to the empty queue `Queue(maxsize=m)`; `m = 0` is the unbounded `Queue()`.  Every theorem quantifies over
+**all** `m` and **all** histories, hence over every interleaving of producers (blocked or not), consumers, hand marks,
+body failures and cancellations before / inside the block or inside `put()`, and over every handle order.
+
+An item counts as *put* when it enters the queue (`puts`): by a `put_nowait` of non-task code that did not raise
+(`hputs`) or by a producer that got through its `put()` (`PPhase.done true`).
 
 An item leaves the books in exactly one of two ways: the block it was handed to exits (`exits`, one per consumer
 with `CPhase.done e true`), or it was taken and marked by hand (`takes`).
 
 Only property theorems and their non-vacuity examples live here; the invariant and its preservation are in
-`Taskpool/Inv/Queue{Inv,Refine,Steps,Shell}.lean`. -/
+`Taskpool/Inv/Queue{Inv,Prod,Refine,Steps,Shell,Putters,PutSteps}.lean`. -/
 namespace Taskpool
 open QueueM
 
-/-- the state the history `ins` leads to -/
-abbrev QueueM.after (ins : List Input) : Q := Q.init.run ins
+/-- the state the history `ins` leads to on a queue created as `Queue(maxsize=m)` (`m = 0`: `Queue()`, unbounded) -/
+abbrev QueueM.after (m : Nat) (ins : List Input) : Q := (Q.initN m).run ins
 
 /-- **C20, exactly once.** In every reachable state: the number of `task_done()` calls equals the number of block
 exits plus the number of hand-marked items; the number of block exits equals the number of consumers that were handed
@@ -26,11 +32,11 @@ an item and have left their block; and consumer by consumer (hand marks or not),
 has been left (normally, by exception or by cancellation — `CPhase.done e true` for every `e`), and not at all
 otherwise: not while it still waits, not while it is inside the block, and not if it was cancelled while waiting
 (`CPhase.done .cancelled false`). -/
-theorem C20_marks_once (ins : List Input) :
-    (after ins).k.tdCalls = (after ins).k.exits + (after ins).k.takes
-    ∧ (after ins).k.exits = (after ins).k.cores.countP Core.tookDone
-    ∧ ∀ (c : Nat) (x : Core), (after ins).k.cores[c]? = some x → x.marks = if x.tookDone then 1 else 0 := by
-  have hi := Q.inv_reach ins
+theorem C20_marks_once (m : Nat) (ins : List Input) :
+    (after m ins).k.tdCalls = (after m ins).k.exits + (after m ins).k.takes
+    ∧ (after m ins).k.exits = (after m ins).k.cores.countP Core.tookDone
+    ∧ ∀ (c : Nat) (x : Core), (after m ins).k.cores[c]? = some x → x.marks = if x.tookDone then 1 else 0 := by
+  have hi := Q.inv_reach m ins
   obtain ⟨_, _, _, d, e⟩ := hi.cnt
   exact ⟨d, e, fun c x hx => hi.core x (List.mem_of_getElem? hx)⟩
 
@@ -38,68 +44,68 @@ theorem C20_marks_once (ins : List Input) :
 input: if it ends a consumer that had not been handed an item (not started, or waiting in `get()`), then that
 consumer ended by cancellation, made no `task_done()` call, and the step removed no item and left the unfinished
 counter, the number of `task_done()` calls and the number of hand marks untouched. -/
-theorem C20_cancelled_waiter_marks_nothing (ins : List Input) (i : Input) (c : Nat) (x x' : Core)
-    (hx : (after ins).k.cores[c]? = some x) (hp : preBlock x.phase = true)
-    (hx' : ((after ins).step i).k.cores[c]? = some x') (hd : Q.isDone x'.phase = true) :
+theorem C20_cancelled_waiter_marks_nothing (m : Nat) (ins : List Input) (i : Input) (c : Nat) (x x' : Core)
+    (hx : (after m ins).k.cores[c]? = some x) (hp : preBlock x.phase = true)
+    (hx' : ((after m ins).step i).k.cores[c]? = some x') (hd : Q.isDone x'.phase = true) :
     x'.phase = .done .cancelled false ∧ x'.marks = 0
-    ∧ ((after ins).step i).k.items = (after ins).k.items
-    ∧ ((after ins).step i).k.unfinished = (after ins).k.unfinished
-    ∧ ((after ins).step i).k.tdCalls = (after ins).k.tdCalls
-    ∧ ((after ins).step i).k.takes = (after ins).k.takes := by
-  have := (Q.kstep_step (after ins) i).cancelled_waiter (Q.inv_reach ins) c x x' hx hp hx' hd
+    ∧ ((after m ins).step i).k.items = (after m ins).k.items
+    ∧ ((after m ins).step i).k.unfinished = (after m ins).k.unfinished
+    ∧ ((after m ins).step i).k.tdCalls = (after m ins).k.tdCalls
+    ∧ ((after m ins).step i).k.takes = (after m ins).k.takes := by
+  have := (Q.kstep_step (after m ins) i).cancelled_waiter (Q.inv_reach m ins) c x x' hx hp hx' hd
   exact ⟨this.1, this.2.1, this.2.2.1, this.2.2.2.1, this.2.2.2.2.1, this.2.2.2.2.2.2.2⟩
 
 /-- **C20, the books.** In every reachable state the unfinished counter is the number of items still queued plus the
 number of consumers inside their block, and `puts = exits + takes + unfinished`, i.e.
 `unfinished = puts − exits − takes`: every item put is still unfinished, or its block has exited, or it was taken and
 marked by hand. -/
-theorem C20_unfinished_eq (ins : List Input) :
-    (after ins).k.unfinished = (after ins).k.items.length + (after ins).k.cores.countP Core.inBlock
-    ∧ (after ins).k.puts = (after ins).k.exits + (after ins).k.takes + (after ins).k.unfinished := by
-  obtain ⟨a, b, _, _, _⟩ := (Q.inv_reach ins).cnt
+theorem C20_unfinished_eq (m : Nat) (ins : List Input) :
+    (after m ins).k.unfinished = (after m ins).k.items.length + (after m ins).k.cores.countP Core.inBlock
+    ∧ (after m ins).k.puts = (after m ins).k.exits + (after m ins).k.takes + (after m ins).k.unfinished := by
+  obtain ⟨a, b, _, _, _⟩ := (Q.inv_reach m ins).cnt
   exact ⟨a, b⟩
 
 /-- nothing is unfinished exactly when every item put so far has been taken by a block that has exited or was taken
 and marked by hand (`exits` = number of consumers that were handed an item and have left their block, by
 `C20_marks_once`); equivalently, when no item is queued and no consumer is inside its block -/
-theorem C20_all_done_iff (ins : List Input) :
-    ((after ins).k.unfinished = 0 ↔ (after ins).k.puts = (after ins).k.exits + (after ins).k.takes)
-    ∧ ((after ins).k.unfinished = 0 ↔
-        (after ins).k.puts = (after ins).k.cores.countP Core.tookDone + (after ins).k.takes)
-    ∧ ((after ins).k.unfinished = 0 ↔
-        (after ins).k.items = [] ∧ ∀ x ∈ (after ins).k.cores, x.inBlock = false) := by
-  obtain ⟨a, b⟩ := C20_unfinished_eq ins
-  obtain ⟨_, e, _⟩ := C20_marks_once ins
+theorem C20_all_done_iff (m : Nat) (ins : List Input) :
+    ((after m ins).k.unfinished = 0 ↔ (after m ins).k.puts = (after m ins).k.exits + (after m ins).k.takes)
+    ∧ ((after m ins).k.unfinished = 0 ↔
+        (after m ins).k.puts = (after m ins).k.cores.countP Core.tookDone + (after m ins).k.takes)
+    ∧ ((after m ins).k.unfinished = 0 ↔
+        (after m ins).k.items = [] ∧ ∀ x ∈ (after m ins).k.cores, x.inBlock = false) := by
+  obtain ⟨a, b⟩ := C20_unfinished_eq m ins
+  obtain ⟨_, e, _⟩ := C20_marks_once m ins
   refine ⟨by omega, by omega, ?_⟩
   constructor
   · intro h
-    have h1 : (after ins).k.items.length = 0 := by omega
-    have h2 : (after ins).k.cores.countP Core.inBlock = 0 := by omega
+    have h1 : (after m ins).k.items.length = 0 := by omega
+    have h2 : (after m ins).k.cores.countP Core.inBlock = 0 := by omega
     refine ⟨List.length_eq_zero_iff.1 h1, fun x hx => ?_⟩
     have := List.countP_eq_zero.1 h2 x hx
     simpa using this
   · rintro ⟨h1, h2⟩
-    have : (after ins).k.cores.countP Core.inBlock = 0 := List.countP_eq_zero.2 (fun x hx => by simp [h2 x hx])
+    have : (after m ins).k.cores.countP Core.inBlock = 0 := List.countP_eq_zero.2 (fun x hx => by simp [h2 x hx])
     rw [a, h1, this]; rfl
 
 /-- **C20, never too often.** `task_done()` never raises `ValueError`: the error branch of the model is unreachable
 — its ghost counter stays 0 and the observation log (the stream that is compared with the real run) never shows it. -/
-theorem C20_never_too_often (ins : List Input) :
-    (after ins).k.valueErrors = 0 ∧ Ev.valueError ∉ (after ins).log :=
-  ⟨(Q.inv_reach ins).cnt.2.2.1, (Q.shell_reach ins).noVE⟩
+theorem C20_never_too_often (m : Nat) (ins : List Input) :
+    (after m ins).k.valueErrors = 0 ∧ Ev.valueError ∉ (after m ins).log :=
+  ⟨(Q.inv_reach m ins).cnt.2.2.1, (Q.shell_reach m ins).noVE⟩
 
 /-- **C20, join (release).** Take any reachable state and any `join()` waiter `j` whose future is still pending.
 Then work is unfinished, and whatever the next input: the waiter is released — future resolved, task scheduled — by
 that step **iff** the step brings the unfinished counter to zero (a block exit or a hand mark — nothing else lowers
 the counter); otherwise it is left exactly as it was. -/
-theorem C20_join_iff (ins : List Input) (i : Input) (j : Nat) (x : Joiner)
-    (hx : (after ins).k.joiners[j]? = some x) (hp : x.phase = .waiting) (hf : x.fut = .pending) :
-    0 < (after ins).k.unfinished ∧
-    ∃ x', ((after ins).step i).k.joiners[j]? = some x' ∧ x'.phase = .waiting
-      ∧ (x'.fut = .woken ↔ ((after ins).step i).k.unfinished = 0)
+theorem C20_join_iff (m : Nat) (ins : List Input) (i : Input) (j : Nat) (x : Joiner)
+    (hx : (after m ins).k.joiners[j]? = some x) (hp : x.phase = .waiting) (hf : x.fut = .pending) :
+    0 < (after m ins).k.unfinished ∧
+    ∃ x', ((after m ins).step i).k.joiners[j]? = some x' ∧ x'.phase = .waiting
+      ∧ (x'.fut = .woken ↔ ((after m ins).step i).k.unfinished = 0)
       ∧ (x'.fut = .woken → x'.sched = true)
       ∧ (x'.fut ≠ .woken → x' = x) := by
-  obtain ⟨hpos, x', h1, h2, h3⟩ := (Q.kstep_step (after ins) i).join_release (Q.inv_reach ins) j x hx hp hf
+  obtain ⟨hpos, x', h1, h2, h3⟩ := (Q.kstep_step (after m ins) i).join_release (Q.inv_reach m ins) j x hx hp hf
   refine ⟨hpos, x', h1, h2, ?_⟩
   rcases h3 with ⟨a, b, c⟩ | ⟨a, rfl⟩
   · exact ⟨⟨fun _ => a, fun _ => b⟩, fun _ => c, fun h => absurd b h⟩
@@ -107,17 +113,17 @@ theorem C20_join_iff (ins : List Input) (i : Input) (j : Nat) (x : Joiner)
 
 /-- **C20, join (call time).** When the loop runs the first step of a `join()` task, the call returns at once iff
 nothing is unfinished at that moment; otherwise the task becomes a pending waiter of the `_finished` event. -/
-theorem C20_join_at_call (ins : List Input) (n j : Nat) (x : Joiner)
-    (hr : (after ins).ready[n]? = some (.joiner j))
-    (hx : (after ins).k.joiners[j]? = some x) (hp : x.phase = .notStarted) :
-    ∃ x', ((after ins).step (.run n)).k.joiners[j]? = some x' ∧
-      (((after ins).k.unfinished = 0 ∧ x'.phase = .done
-          ∧ ((after ins).step (.run n)).log = (after ins).log ++ [.joined j])
-       ∨ (0 < (after ins).k.unfinished ∧ x'.phase = .waiting ∧ x'.fut = .pending
-          ∧ ((after ins).step (.run n)).log = (after ins).log)) := by
-  obtain ⟨x', h1, h2⟩ := K.join_at_call _ (Q.inv_reach ins) j x hx hp
-  have hk : ((after ins).step (.run n)).k = (after ins).k.stepJoiner j := by simp [Q.step, hr, Q.runRef]
-  have hl : ((after ins).step (.run n)).log = (after ins).log ++ (if (after ins).k.joins j then [.joined j] else []) := by
+theorem C20_join_at_call (m : Nat) (ins : List Input) (n j : Nat) (x : Joiner)
+    (hr : (after m ins).ready[n]? = some (.joiner j))
+    (hx : (after m ins).k.joiners[j]? = some x) (hp : x.phase = .notStarted) :
+    ∃ x', ((after m ins).step (.run n)).k.joiners[j]? = some x' ∧
+      (((after m ins).k.unfinished = 0 ∧ x'.phase = .done
+          ∧ ((after m ins).step (.run n)).log = (after m ins).log ++ [.joined j])
+       ∨ (0 < (after m ins).k.unfinished ∧ x'.phase = .waiting ∧ x'.fut = .pending
+          ∧ ((after m ins).step (.run n)).log = (after m ins).log)) := by
+  obtain ⟨x', h1, h2⟩ := K.join_at_call _ (Q.inv_reach m ins) j x hx hp
+  have hk : ((after m ins).step (.run n)).k = (after m ins).k.stepJoiner j := by simp [Q.step, hr, Q.runRef]
+  have hl : ((after m ins).step (.run n)).log = (after m ins).log ++ (if (after m ins).k.joins j then [.joined j] else []) := by
     simp [Q.step, hr, Q.runRef, Q.stepJoiner]
   refine ⟨x', hk ▸ h1, ?_⟩
   rcases h2 with ⟨a, b, c⟩ | ⟨a, b, c, _, _, d⟩
@@ -126,16 +132,16 @@ theorem C20_join_at_call (ins : List Input) (n j : Nat) (x : Joiner)
 
 /-- **C20, join (return).** A released waiter is scheduled, its wake-up handle is in the loop's ready queue, and
 whichever step of the loop runs that handle makes `join()` return. -/
-theorem C20_join_returns_after_release (ins : List Input) (j : Nat) (x : Joiner)
-    (hx : (after ins).k.joiners[j]? = some x) (hp : x.phase = .waiting) (hf : x.fut = .woken) :
-    x.sched = true ∧ (∃ n : Nat, (after ins).ready[n]? = some (Ref.joiner j)) ∧
-    ∀ n : Nat, (after ins).ready[n]? = some (Ref.joiner j) →
-      ∃ x', ((after ins).step (.run n)).k.joiners[j]? = some x' ∧ x'.phase = .done
-        ∧ ((after ins).step (.run n)).log = (after ins).log ++ [.joined j] := by
-  obtain ⟨hs, hj, x', h1, h2⟩ := K.join_wakeup _ (Q.inv_reach ins) j x hx hp hf
-  refine ⟨hs, List.mem_iff_getElem?.1 ((Q.shell_reach ins).ready j x hx hs), fun n hr => ?_⟩
-  have hk : ((after ins).step (.run n)).k = (after ins).k.stepJoiner j := by simp [Q.step, hr, Q.runRef]
-  have hl : ((after ins).step (.run n)).log = (after ins).log ++ (if (after ins).k.joins j then [.joined j] else []) := by
+theorem C20_join_returns_after_release (m : Nat) (ins : List Input) (j : Nat) (x : Joiner)
+    (hx : (after m ins).k.joiners[j]? = some x) (hp : x.phase = .waiting) (hf : x.fut = .woken) :
+    x.sched = true ∧ (∃ n : Nat, (after m ins).ready[n]? = some (Ref.joiner j)) ∧
+    ∀ n : Nat, (after m ins).ready[n]? = some (Ref.joiner j) →
+      ∃ x', ((after m ins).step (.run n)).k.joiners[j]? = some x' ∧ x'.phase = .done
+        ∧ ((after m ins).step (.run n)).log = (after m ins).log ++ [.joined j] := by
+  obtain ⟨hs, hj, x', h1, h2⟩ := K.join_wakeup _ (Q.inv_reach m ins) j x hx hp hf
+  refine ⟨hs, List.mem_iff_getElem?.1 ((Q.shell_reach m ins).ready j x hx hs), fun n hr => ?_⟩
+  have hk : ((after m ins).step (.run n)).k = (after m ins).k.stepJoiner j := by simp [Q.step, hr, Q.runRef]
+  have hl : ((after m ins).step (.run n)).log = (after m ins).log ++ (if (after m ins).k.joins j then [.joined j] else []) := by
     simp [Q.step, hr, Q.runRef, Q.stepJoiner]
   exact ⟨x', hk ▸ h1, h2, by rw [hl, hj]; rfl⟩
 
@@ -143,35 +149,35 @@ theorem C20_join_returns_after_release (ins : List Input) (j : Nat) (x : Joiner)
 waiter with a pending future exists only while work is unfinished, is registered with the event and is not
 scheduled (so `join()` cannot return early), and any other waiter has been released, is scheduled and its wake-up
 handle is in the ready queue (no lost wake-up). -/
-theorem C20_join_never_early_never_lost (ins : List Input) :
-    ((after ins).k.finished = true ↔ (after ins).k.unfinished = 0)
-    ∧ ∀ (j : Nat) (x : Joiner), (after ins).k.joiners[j]? = some x → x.phase = .waiting →
-        (x.fut = .pending ∧ j ∈ (after ins).k.evWaiters ∧ x.sched = false ∧ 0 < (after ins).k.unfinished)
-        ∨ (x.fut = .woken ∧ x.sched = true ∧ Ref.joiner j ∈ (after ins).ready) := by
-  have hj := (Q.inv_reach ins).jn
+theorem C20_join_never_early_never_lost (m : Nat) (ins : List Input) :
+    ((after m ins).k.finished = true ↔ (after m ins).k.unfinished = 0)
+    ∧ ∀ (j : Nat) (x : Joiner), (after m ins).k.joiners[j]? = some x → x.phase = .waiting →
+        (x.fut = .pending ∧ j ∈ (after m ins).k.evWaiters ∧ x.sched = false ∧ 0 < (after m ins).k.unfinished)
+        ∨ (x.fut = .woken ∧ x.sched = true ∧ Ref.joiner j ∈ (after m ins).ready) := by
+  have hj := (Q.inv_reach m ins).jn
   refine ⟨hj.fin, fun j x hx hp => ?_⟩
   by_cases hf : x.fut = .pending
   · exact .inl ⟨hf, hj.wait j x hx hp hf⟩
   · obtain ⟨a, b⟩ := hj.woken j x hx hp hf
-    exact .inr ⟨a, b, (Q.shell_reach ins).ready j x hx b⟩
+    exact .inr ⟨a, b, (Q.shell_reach m ins).ready j x hx b⟩
 
 /-- **C20, a block exit marks exactly once, whatever else happens on the queue.** Whatever the history (hand marks
 included) and whatever the next input: if it ends a consumer that is inside its block, then the block was left
 (`CPhase.done e true`: normally, by exception or by cancellation), the consumer had made no `task_done()` call before
 and has made exactly one now, and that step made exactly one `task_done()` call, which did not raise and lowered the
 unfinished counter by exactly one; it took no item and is no hand mark. -/
-theorem C20_block_exit_marks_once (ins : List Input) (i : Input) (c : Nat) (x x' : Core)
-    (hx : (after ins).k.cores[c]? = some x) (hp : isInBlock x.phase = true)
-    (hx' : ((after ins).step i).k.cores[c]? = some x') (hd : Q.isDone x'.phase = true) :
+theorem C20_block_exit_marks_once (m : Nat) (ins : List Input) (i : Input) (c : Nat) (x x' : Core)
+    (hx : (after m ins).k.cores[c]? = some x) (hp : isInBlock x.phase = true)
+    (hx' : ((after m ins).step i).k.cores[c]? = some x') (hd : Q.isDone x'.phase = true) :
     x.marks = 0 ∧ x'.marks = 1 ∧ (∃ e, x'.phase = .done e true)
-    ∧ ((after ins).step i).k.tdCalls = (after ins).k.tdCalls + 1
-    ∧ ((after ins).step i).k.exits = (after ins).k.exits + 1
-    ∧ ((after ins).step i).k.unfinished + 1 = (after ins).k.unfinished
-    ∧ ((after ins).step i).k.takes = (after ins).k.takes
-    ∧ ((after ins).step i).k.items = (after ins).k.items
-    ∧ ((after ins).step i).k.valueErrors = 0 := by
-  obtain ⟨a, b, c', d, e, f, g, h, _, j⟩ := (Q.kstep_step (after ins) i).block_exit (Q.inv_reach ins) c x x' hx hp hx' hd
-  exact ⟨a, b, c', d, e, f, g, h, by rw [j]; exact (Q.inv_reach ins).cnt.2.2.1⟩
+    ∧ ((after m ins).step i).k.tdCalls = (after m ins).k.tdCalls + 1
+    ∧ ((after m ins).step i).k.exits = (after m ins).k.exits + 1
+    ∧ ((after m ins).step i).k.unfinished + 1 = (after m ins).k.unfinished
+    ∧ ((after m ins).step i).k.takes = (after m ins).k.takes
+    ∧ ((after m ins).step i).k.items = (after m ins).k.items
+    ∧ ((after m ins).step i).k.valueErrors = 0 := by
+  obtain ⟨a, b, c', d, e, f, g, h, _, j⟩ := (Q.kstep_step (after m ins) i).block_exit (Q.inv_reach m ins) c x x' hx hp hx' hd
+  exact ⟨a, b, c', d, e, f, g, h, by rw [j]; exact (Q.inv_reach m ins).cnt.2.2.1⟩
 
 /-- **C20, a hand mark leaves the blocks alone.** Take any reachable state and let non-task code `take`.
 * The step changes no consumer: every consumer's phase and every consumer's `marks` are what they were (the list of
@@ -184,35 +190,39 @@ theorem C20_block_exit_marks_once (ins : List Input) (i : Input) (c : Nat) (x x'
   exactly once: the consumer has no mark while inside its block and exactly one when it has left it, the exit step
   makes exactly one `task_done()` call, lowers the unfinished counter by exactly one and is not counted as a hand
   mark. -/
-theorem C20_hand_mark_leaves_blocks_alone (ins : List Input) :
-    ((after ins).step .take).k.cores = (after ins).k.cores
-    ∧ ((after ins).step .take).aux = (after ins).aux
-    ∧ ((after ins).step .take).getters = (after ins).getters
-    ∧ ((after ins).step .take).k.exits = (after ins).k.exits
-    ∧ ((after ins).k.items = [] → (after ins).step .take = after ins)
-    ∧ (∀ y rest, (after ins).k.items = y :: rest →
-        ((after ins).step .take).k.items = rest
-        ∧ ((after ins).step .take).k.takes = (after ins).k.takes + 1
-        ∧ ((after ins).step .take).k.tdCalls = (after ins).k.tdCalls + 1
-        ∧ ((after ins).step .take).k.unfinished + 1 = (after ins).k.unfinished
-        ∧ ((after ins).step .take).k.puts = (after ins).k.puts
-        ∧ ((after ins).step .take).k.valueErrors = 0
-        ∧ ((after ins).step .take).log
-            = (after ins).log ++ [.handTook y, .taskDone ((after ins).step .take).k.unfinished])
+theorem C20_hand_mark_leaves_blocks_alone (m : Nat) (ins : List Input) :
+    ((after m ins).step .take).k.cores = (after m ins).k.cores
+    ∧ ((after m ins).step .take).aux = (after m ins).aux
+    ∧ ((after m ins).step .take).getters = (after m ins).getters
+    ∧ ((after m ins).step .take).k.exits = (after m ins).k.exits
+    ∧ ((after m ins).k.items = [] → (after m ins).step .take = after m ins)
+    ∧ (∀ y rest, (after m ins).k.items = y :: rest →
+        ((after m ins).step .take).k.items = rest
+        ∧ ((after m ins).step .take).k.takes = (after m ins).k.takes + 1
+        ∧ ((after m ins).step .take).k.tdCalls = (after m ins).k.tdCalls + 1
+        ∧ ((after m ins).step .take).k.unfinished + 1 = (after m ins).k.unfinished
+        ∧ ((after m ins).step .take).k.puts = (after m ins).k.puts
+        ∧ ((after m ins).step .take).k.valueErrors = 0
+        ∧ ((after m ins).step .take).log
+            = (after m ins).log ++ [.handTook y, .taskDone ((after m ins).step .take).k.unfinished])
     ∧ ∀ (more : List Input) (i : Input) (c : Nat) (x x' : Core),
-        (after (ins ++ .take :: more)).k.cores[c]? = some x → isInBlock x.phase = true →
-        ((after (ins ++ .take :: more)).step i).k.cores[c]? = some x' → Q.isDone x'.phase = true →
+        (after m (ins ++ .take :: more)).k.cores[c]? = some x → isInBlock x.phase = true →
+        ((after m (ins ++ .take :: more)).step i).k.cores[c]? = some x' → Q.isDone x'.phase = true →
         x.marks = 0 ∧ x'.marks = 1 ∧ (∃ e, x'.phase = .done e true)
-        ∧ ((after (ins ++ .take :: more)).step i).k.tdCalls = (after (ins ++ .take :: more)).k.tdCalls + 1
-        ∧ ((after (ins ++ .take :: more)).step i).k.unfinished + 1 = (after (ins ++ .take :: more)).k.unfinished
-        ∧ ((after (ins ++ .take :: more)).step i).k.takes = (after (ins ++ .take :: more)).k.takes := by
-  have hi := Q.inv_reach ins
-  have hk : ((after ins).step .take).k = (after ins).k.handTake := by simp [Q.step]
+        ∧ ((after m (ins ++ .take :: more)).step i).k.tdCalls = (after m (ins ++ .take :: more)).k.tdCalls + 1
+        ∧ ((after m (ins ++ .take :: more)).step i).k.unfinished + 1 = (after m (ins ++ .take :: more)).k.unfinished
+        ∧ ((after m (ins ++ .take :: more)).step i).k.takes = (after m (ins ++ .take :: more)).k.takes := by
+  have hi := Q.inv_reach m ins
+  have hk : ((after m ins).step .take).k = (after m ins).k.handTake := by simp [Q.step]
   refine ⟨by rw [hk, K.cores_handTake], ?_, ?_, ?_, ?_, ?_, ?_⟩
-  · simp only [Q.step, Q.handTake]; split <;> rfl
-  · simp only [Q.step, Q.handTake]; split <;> rfl
+  · simp only [Q.step, Q.handTake]; split
+    · rfl
+    · exact Q.aux_wakePutter _
+  · simp only [Q.step, Q.handTake]; split
+    · rfl
+    · exact Q.getters_wakePutter _
   · rw [hk]
-    rcases K.handTake_cases (after ins).k with ⟨_, e⟩ | ⟨y, rest, _, e⟩ <;> rw [e]
+    rcases K.handTake_cases (after m ins).k with ⟨_, e⟩ | ⟨y, rest, _, e⟩ <;> rw [e]
     exact (K.frame_taskDone _).2.2.2.1
   · intro h0
     simp only [Q.step, Q.handTake]
@@ -220,30 +230,138 @@ theorem C20_hand_mark_leaves_blocks_alone (ins : List Input) :
     · rfl
     · rename_i y rest hit; rw [h0] at hit; cases hit
   · intro y rest hit
-    have hpos : 0 < ({ (after ins).k with items := rest, takes := (after ins).k.takes + 1 } : K).unfinished :=
+    have hpos : 0 < ({ (after m ins).k with items := rest, takes := (after m ins).k.takes + 1 } : K).unfinished :=
       hi.pos_of_items y rest hit
-    have hk' : (after ins).k.handTake
-        = ({ (after ins).k with items := rest, takes := (after ins).k.takes + 1 } : K).taskDone := by
+    have hk' : (after m ins).k.handTake
+        = ({ (after m ins).k with items := rest, takes := (after m ins).k.takes + 1 } : K).taskDone := by
       unfold K.handTake; rw [hit]
     have hv := K.view_taskDone _ hpos
     simp only [K.view, V.mk.injEq] at hv
     obtain ⟨-, v2, -, -, v5, -, v7, v8, v9⟩ := hv
-    have hve : (after ins).k.valueErrors = 0 := hi.cnt.2.2.1
-    have hpos' : 0 < (after ins).k.unfinished := hpos
-    have hne : ¬ (after ins).k.unfinished = 0 := by omega
+    have hve : (after m ins).k.valueErrors = 0 := hi.cnt.2.2.1
+    have hpos' : 0 < (after m ins).k.unfinished := hpos
+    have hne : ¬ (after m ins).k.unfinished = 0 := by omega
     refine ⟨?_, ?_, ?_, ?_, ?_, ?_, ?_⟩
     · rw [hk, hk']; exact (K.frame_taskDone _).1
     · rw [hk, hk']; exact v9
     · rw [hk, hk']; exact v7
-    · rw [hk, hk', v2]; show (after ins).k.unfinished - 1 + 1 = (after ins).k.unfinished; omega
+    · rw [hk, hk', v2]; show (after m ins).k.unfinished - 1 + 1 = (after m ins).k.unfinished; omega
     · rw [hk, hk']; exact v5
     · rw [hk, hk', v8]; exact hve
-    · have hu : ((after ins).step .take).k.unfinished = (after ins).k.unfinished - 1 := by rw [hk, hk', v2]
+    · have hu : ((after m ins).step .take).k.unfinished = (after m ins).k.unfinished - 1 := by rw [hk, hk', v2]
       rw [hu]
       simp only [Q.step, Q.handTake, hit, hne, if_false]
   · intro more i c x x' hx hp hx' hd
-    obtain ⟨a, b, c', d, _, f, g, _⟩ := C20_block_exit_marks_once (ins ++ .take :: more) i c x x' hx hp hx' hd
+    obtain ⟨a, b, c', d, _, f, g, _⟩ := C20_block_exit_marks_once m (ins ++ .take :: more) i c x x' hx hp hx' hd
     exact ⟨a, b, c', d, f, g⟩
+
+/-! ## Bounded queues and producer tasks -/
+
+/-- **C20, a bounded queue is never over-full.** The queue keeps the `maxsize` it was created with, and a bounded queue
+(`0 < m`) never holds more than `m` items — in every reachable state, whatever producers, consumers and cancellations
+did.  `put_nowait()` by non-task code on a full queue (`QueueFull`) changes nothing at all. -/
+theorem C20_bounded_never_over_full (m : Nat) (ins : List Input) :
+    (after m ins).k.maxsize = m
+    ∧ (0 < m → (after m ins).k.items.length ≤ m)
+    ∧ ((after m ins).k.full = true → ∀ x, (after m ins).step (.put x) = after m ins) := by
+  have hm := Q.maxsize_reach m ins
+  refine ⟨hm, fun h0 => ?_, fun hf x => by simp [Q.step, Q.put, hf]⟩
+  rcases (Q.pok_reach m ins).bnd with h | h
+  · rw [hm] at h; omega
+  · rw [hm] at h; exact h
+
+/-- **C20, a producer cancelled before its item entered the queue puts nothing.**
+* The books: in every reachable state the number of items that ever entered the queue is the number of successful
+  `put_nowait` calls of non-task code plus the number of producers that got through `put()` — a cancelled producer is
+  not among them.
+* The step: whatever the history and whatever the next input, if it ends a producer that had not put its item yet (not
+  started, or waiting in `put()` — pending or already woken) by cancellation (`PPhase.done false`), then the step left
+  the queue, `puts`, the unfinished counter, the `_finished` event and the number of `task_done()` calls untouched.
+* For ever: whatever follows, that producer stays cancelled — its item never enters the queue. -/
+theorem C20_cancelled_producer_puts_nothing (m : Nat) (ins : List Input) :
+    (after m ins).k.puts = (after m ins).k.hputs + (after m ins).k.prods.countP Prod.putDone
+    ∧ ∀ (i : Input) (j : Nat) (p p' : Prod), (after m ins).k.prods[j]? = some p → prePut p.phase = true →
+        ((after m ins).step i).k.prods[j]? = some p' → p'.phase = .done false →
+        ((after m ins).step i).k.items = (after m ins).k.items
+        ∧ ((after m ins).step i).k.puts = (after m ins).k.puts
+        ∧ ((after m ins).step i).k.unfinished = (after m ins).k.unfinished
+        ∧ ((after m ins).step i).k.finished = (after m ins).k.finished
+        ∧ ((after m ins).step i).k.tdCalls = (after m ins).k.tdCalls
+        ∧ p'.item = p.item
+        ∧ ∀ more : List Input, (after m (ins ++ i :: more)).k.prods[j]? = some p' := by
+  refine ⟨(Q.pok_reach m ins).puts, fun i j p p' hp hpre hp' hd => ?_⟩
+  have hdone : isPDone p'.phase = true := by rw [hd]; rfl
+  have hitem : p'.item = p.item := by
+    obtain ⟨p2, h1, h2, _⟩ := (Q.kstep_step (after m ins) i).prod_final j p hp
+    rw [hp'] at h1; cases h1; exact h2
+  rcases (Q.kstep_step (after m ins) i).producer_done j p p' hp hpre hp' hdone with ⟨h, _⟩ | ⟨_, a, b, c, _, e, f⟩
+  · rw [hd] at h; cases h
+  · refine ⟨a, b, c, f, e, hitem, fun more => ?_⟩
+    have : after m (ins ++ i :: more) = ((after m ins).step i).run more := by
+      simp [after, Q.run, List.foldl_append]
+    rw [this]
+    exact Q.prod_final_run _ more j p' hp' hdone
+
+/-- **C20, a producer's item is put exactly once, when its `put()` gets through.** Whatever the history and whatever
+the next input: if it takes a producer that had not put its item yet through `put()` (`PPhase.done true`), then the
+queue was not full, the step appended exactly that producer's item at the tail, and `puts` and the unfinished counter
+went up by exactly one; it is not counted as a `put_nowait` of non-task code. -/
+theorem C20_producer_puts_once (m : Nat) (ins : List Input) (i : Input) (j : Nat) (p p' : Prod)
+    (hp : (after m ins).k.prods[j]? = some p) (hpre : prePut p.phase = true)
+    (hp' : ((after m ins).step i).k.prods[j]? = some p') (hd : p'.phase = .done true) :
+    (after m ins).k.full = false
+    ∧ ((after m ins).step i).k.items = (after m ins).k.items ++ [p.item]
+    ∧ ((after m ins).step i).k.puts = (after m ins).k.puts + 1
+    ∧ ((after m ins).step i).k.unfinished = (after m ins).k.unfinished + 1
+    ∧ ((after m ins).step i).k.hputs = (after m ins).k.hputs := by
+  have hdone : isPDone p'.phase = true := by rw [hd]; rfl
+  rcases (Q.kstep_step (after m ins) i).producer_done j p p' hp hpre hp' hdone with ⟨_, a, b, c, d, e⟩ | ⟨h, _⟩
+  · exact ⟨a, b, c, d, e⟩
+  · rw [hd] at h; cases h
+
+/-- **C20, no lost putter wake-up.** In every reachable state every producer has its event-loop bookkeeping, and a
+producer waiting inside `put()` is in one of two situations:
+* its putter future is pending: then the queue is bounded, the producer is registered in `_putters` and not scheduled,
+  and **if the queue is not full, a wake-up is on its way** — some producer's putter future has been resolved by
+  `get_nowait()`, that producer is scheduled and its handle is in the loop's ready queue (it will put, or — cancelled
+  meanwhile — hand the wake-up on); so with the queue not full and no wake-up on its way, no producer is left waiting;
+* or its putter future is done (resolved or cancelled): then the producer is scheduled and its handle is in the ready
+  queue. -/
+theorem C20_no_lost_putter_wakeup (m : Nat) (ins : List Input) :
+    (after m ins).k.prods.length = (after m ins).paux.length
+    ∧ ∀ (j : Nat) (p : Prod) (a : Aux), (after m ins).k.prods[j]? = some p → (after m ins).paux[j]? = some a →
+        p.phase = .waiting →
+        (a.gate = .pending ∧ a.sched = false ∧ j ∈ (after m ins).putters ∧ 0 < m
+          ∧ ((after m ins).k.full = false →
+              ∃ (j' : Nat) (p' : Prod) (a' : Aux), (after m ins).k.prods[j']? = some p' ∧ (after m ins).paux[j']? = some a'
+                ∧ p'.phase = .waiting ∧ a'.gate = .woken ∧ a'.sched = true ∧ Ref.producer j' ∈ (after m ins).ready))
+        ∨ (a.gate ≠ .pending ∧ a.sched = true ∧ Ref.producer j ∈ (after m ins).ready) := by
+  have hI : PInv (after m ins) := Q.pinv_reach m ins
+  have hk := Q.pok_reach m ins
+  have hm := Q.maxsize_reach m ins
+  refine ⟨hI.len, fun j p a hp ha hw => ?_⟩
+  by_cases hg : a.gate = .pending
+  · left
+    obtain ⟨h1, h2⟩ := hI.pend j p a hp ha hw hg
+    have hpos : 0 < m := by
+      rcases Nat.eq_zero_or_pos m with h0 | h0
+      · exact absurd hw (hk.unb (by rw [hm]; exact h0) p (List.mem_of_getElem? hp))
+      · exact h0
+    refine ⟨hg, h1, h2, hpos, fun hf => ?_⟩
+    have hP : 0 < cnt2 pendW (after m ins).k.prods (after m ins).paux :=
+      cnt2_pos_of _ _ _ j p a hp ha (by simp [pendW, isWaitingP, hw, hg])
+    have hW := hI.cnt hP
+    have hfree : 0 < (after m ins).free := by
+      have := (after m ins).k.room_of_not_full hf
+      simp only [Q.free]; rw [hm] at this ⊢; omega
+    obtain ⟨j', p', a', h1', h2', h3'⟩ := cnt2_pos _ _ _ (Nat.lt_of_lt_of_le hfree hW)
+    simp only [wokenW, Bool.and_eq_true, beq_iff_eq] at h3'
+    have hw' : p'.phase = .waiting := (Q.isWaitingP_iff _).1 h3'.1
+    obtain ⟨s1, s2⟩ := hI.fly j' p' a' h1' h2' hw' (by rw [h3'.2]; simp)
+    exact ⟨j', p', a', h1', h2', hw', h3'.2, s1, s2⟩
+  · right
+    obtain ⟨h1, h2⟩ := hI.fly j p a hp ha hw hg
+    exact ⟨hg, h1, h2⟩
 
 /-! ## Non-vacuity
 
@@ -265,38 +383,38 @@ def C20_demo₃ : List Input := C20_demo₂ ++ [.cancel 1]
 def C20_demo₄ : List Input := C20_demo₃ ++ [.run 0, .run 0]
 
 -- after demo₁: two consumers in their block, one waiting, a pending join waiter, 2 unfinished
-example : ((after C20_demo₁).k.cores.map (·.phase)) = [.inBlock 7, .inBlock 8, .waiting] := by decide +kernel
-example : (after C20_demo₁).k.joiners[0]? = some ⟨.waiting, .pending, false⟩ := by decide +kernel
-example : (after C20_demo₁).k.unfinished = 2 ∧ (after C20_demo₁).k.puts = 2 ∧ (after C20_demo₁).k.exits = 0 := by decide +kernel
+example : ((after 0 C20_demo₁).k.cores.map (·.phase)) = [.inBlock 7, .inBlock 8, .waiting] := by decide +kernel
+example : (after 0 C20_demo₁).k.joiners[0]? = some ⟨.waiting, .pending, false⟩ := by decide +kernel
+example : (after 0 C20_demo₁).k.unfinished = 2 ∧ (after 0 C20_demo₁).k.puts = 2 ∧ (after 0 C20_demo₁).k.exits = 0 := by decide +kernel
 -- the hypotheses of `C20_cancelled_waiter_marks_nothing` are met by consumer 2 and the step `run 0` after `cancel 2`
-example : (after (C20_demo₁ ++ [.cancel 2])).k.cores[2]? = some ⟨.waiting, 0⟩ := by decide +kernel
-example : ((after (C20_demo₁ ++ [.cancel 2])).step (.run 0)).k.cores[2]? = some ⟨.done .cancelled false, 0⟩ := by decide +kernel
+example : (after 0 (C20_demo₁ ++ [.cancel 2])).k.cores[2]? = some ⟨.waiting, 0⟩ := by decide +kernel
+example : ((after 0 (C20_demo₁ ++ [.cancel 2])).step (.run 0)).k.cores[2]? = some ⟨.done .cancelled false, 0⟩ := by decide +kernel
 -- after demo₂: one exit by exception, marked once; the cancelled waiter marked nothing; the joiner still waits
-example : ((after C20_demo₂).k.cores.map fun x => (x.phase, x.marks))
+example : ((after 0 C20_demo₂).k.cores.map fun x => (x.phase, x.marks))
     = [(.done .exc true, 1), (.inBlock 8, 0), (.done .cancelled false, 0)] := by decide +kernel
-example : (after C20_demo₂).k.tdCalls = 1 ∧ (after C20_demo₂).k.exits = 1 ∧ (after C20_demo₂).k.unfinished = 1 := by decide +kernel
-example : (after C20_demo₂).k.joiners[0]? = some ⟨.waiting, .pending, false⟩ := by decide +kernel
+example : (after 0 C20_demo₂).k.tdCalls = 1 ∧ (after 0 C20_demo₂).k.exits = 1 ∧ (after 0 C20_demo₂).k.unfinished = 1 := by decide +kernel
+example : (after 0 C20_demo₂).k.joiners[0]? = some ⟨.waiting, .pending, false⟩ := by decide +kernel
 -- the step `run 0` after `cancel 1` (hypotheses of `C20_join_iff`) brings the counter to zero and releases the joiner
-example : (after C20_demo₃).k.joiners[0]? = some ⟨.waiting, .pending, false⟩ := by decide +kernel
-example : ((after C20_demo₃).step (.run 0)).k.unfinished = 0
-    ∧ ((after C20_demo₃).step (.run 0)).k.joiners[0]? = some ⟨.waiting, .woken, true⟩ := by decide +kernel
+example : (after 0 C20_demo₃).k.joiners[0]? = some ⟨.waiting, .pending, false⟩ := by decide +kernel
+example : ((after 0 C20_demo₃).step (.run 0)).k.unfinished = 0
+    ∧ ((after 0 C20_demo₃).step (.run 0)).k.joiners[0]? = some ⟨.waiting, .woken, true⟩ := by decide +kernel
 -- hypotheses of `C20_join_returns_after_release`
-example : (after (C20_demo₃ ++ [.run 0])).ready[0]? = some (.joiner 0) := by decide +kernel
+example : (after 0 (C20_demo₃ ++ [.run 0])).ready[0]? = some (.joiner 0) := by decide +kernel
 -- after demo₄: every exit path occurred once, every taken item marked exactly once, join() returned
-example : ((after C20_demo₄).k.cores.map fun x => (x.phase, x.marks))
+example : ((after 0 C20_demo₄).k.cores.map fun x => (x.phase, x.marks))
     = [(.done .exc true, 1), (.done .cancelled true, 1), (.done .cancelled false, 0)] := by decide +kernel
-example : (after C20_demo₄).k.joiners[0]? = some ⟨.done, .woken, false⟩ := by decide +kernel
-example : (after C20_demo₄).k.tdCalls = 2 ∧ (after C20_demo₄).k.puts = 2 ∧ (after C20_demo₄).k.valueErrors = 0 := by decide +kernel
-example : (after C20_demo₄).log = [.got 0 7, .got 1 8, .sawCancel 2, .exited 0, .taskDone 1, .sawCancel 1, .exited 1,
+example : (after 0 C20_demo₄).k.joiners[0]? = some ⟨.done, .woken, false⟩ := by decide +kernel
+example : (after 0 C20_demo₄).k.tdCalls = 2 ∧ (after 0 C20_demo₄).k.puts = 2 ∧ (after 0 C20_demo₄).k.valueErrors = 0 := by decide +kernel
+example : (after 0 C20_demo₄).log = [.got 0 7, .got 1 8, .sawCancel 2, .exited 0, .taskDone 1, .sawCancel 1, .exited 1,
     .taskDone 0, .joined 0] := by decide +kernel
 -- hypotheses of `C20_join_at_call`, both ways: with work unfinished (demo₁ before its last step) and without
-example : (after (C20_demo₁.take 11)).ready[0]? = some (.joiner 0)
-    ∧ (after (C20_demo₁.take 11)).k.joiners[0]? = some ⟨.notStarted, .pending, true⟩
-    ∧ (after (C20_demo₁.take 11)).k.unfinished = 2 := by decide +kernel
-example : (after [.join]).ready[0]? = some (.joiner 0) ∧ (after [.join]).k.joiners[0]? = some ⟨.notStarted, .pending, true⟩
-    ∧ (after [.join, .run 0]).k.joiners[0]? = some ⟨.done, .pending, false⟩ := by decide +kernel
+example : (after 0 (C20_demo₁.take 11)).ready[0]? = some (.joiner 0)
+    ∧ (after 0 (C20_demo₁.take 11)).k.joiners[0]? = some ⟨.notStarted, .pending, true⟩
+    ∧ (after 0 (C20_demo₁.take 11)).k.unfinished = 2 := by decide +kernel
+example : (after 0 [.join]).ready[0]? = some (.joiner 0) ∧ (after 0 [.join]).k.joiners[0]? = some ⟨.notStarted, .pending, true⟩
+    ∧ (after 0 [.join, .run 0]).k.joiners[0]? = some ⟨.done, .pending, false⟩ := by decide +kernel
 -- a normal exit as well
-example : ((after [.put 3, .spawn, .run 0, .gate 0 false, .run 0]).k.cores.map fun x => (x.phase, x.marks))
+example : ((after 0 [.put 3, .spawn, .run 0, .gate 0 false, .run 0]).k.cores.map fun x => (x.phase, x.marks))
     = [(.done .ok true, 1)] := by decide +kernel
 
 /-! A history with hand marks: two items, consumer 0 is handed the first; while it is inside its block the second item
@@ -307,29 +425,78 @@ def C20_demo₆ : List Input := C20_demo₅ ++ [.take, .join, .run 0]
 def C20_demo₇ : List Input := C20_demo₆ ++ [.gate 0 false, .run 0]
 
 -- hypotheses of the `take` clause of `C20_hand_mark_leaves_blocks_alone`: an item is queued, a block is open
-example : (after C20_demo₅).k.items = [2] ∧ ((after C20_demo₅).k.cores.map fun x => (x.phase, x.marks)) = [(.inBlock 1, 0)]
-    ∧ (after C20_demo₅).k.unfinished = 2 := by decide +kernel
+example : (after 0 C20_demo₅).k.items = [2] ∧ ((after 0 C20_demo₅).k.cores.map fun x => (x.phase, x.marks)) = [(.inBlock 1, 0)]
+    ∧ (after 0 C20_demo₅).k.unfinished = 2 := by decide +kernel
 -- the hand mark: one item gone, one unfinished less, the block untouched; the joiner has to wait for the block
-example : (after C20_demo₆).k.items = [] ∧ ((after C20_demo₆).k.cores.map fun x => (x.phase, x.marks)) = [(.inBlock 1, 0)]
-    ∧ (after C20_demo₆).k.unfinished = 1 ∧ (after C20_demo₆).k.takes = 1 ∧ (after C20_demo₆).k.tdCalls = 1
-    ∧ (after C20_demo₆).k.joiners[0]? = some ⟨.waiting, .pending, false⟩ := by decide +kernel
+example : (after 0 C20_demo₆).k.items = [] ∧ ((after 0 C20_demo₆).k.cores.map fun x => (x.phase, x.marks)) = [(.inBlock 1, 0)]
+    ∧ (after 0 C20_demo₆).k.unfinished = 1 ∧ (after 0 C20_demo₆).k.takes = 1 ∧ (after 0 C20_demo₆).k.tdCalls = 1
+    ∧ (after 0 C20_demo₆).k.joiners[0]? = some ⟨.waiting, .pending, false⟩ := by decide +kernel
 -- hypotheses of its block-exit clause (`ins = demo₅`, `more = [join, run 0, gate 0 ok]`, `i = run 0`), and the outcome
-example : ((after (C20_demo₆ ++ [.gate 0 false])).k.cores.map (·.phase)) = [.inBlock 1]
-    ∧ (((after (C20_demo₆ ++ [.gate 0 false])).step (.run 0)).k.cores.map fun x => (x.phase, x.marks)) = [(.done .ok true, 1)] := by
+example : ((after 0 (C20_demo₆ ++ [.gate 0 false])).k.cores.map (·.phase)) = [.inBlock 1]
+    ∧ (((after 0 (C20_demo₆ ++ [.gate 0 false])).step (.run 0)).k.cores.map fun x => (x.phase, x.marks)) = [(.done .ok true, 1)] := by
   decide +kernel
-example : (after C20_demo₇).k.unfinished = 0 ∧ (after C20_demo₇).k.puts = 2 ∧ (after C20_demo₇).k.exits = 1
-    ∧ (after C20_demo₇).k.takes = 1 ∧ (after C20_demo₇).k.tdCalls = 2
-    ∧ (after C20_demo₇).k.joiners[0]? = some ⟨.waiting, .woken, true⟩ := by decide +kernel
-example : (after (C20_demo₇ ++ [.run 0])).log = [.got 0 1, .handTook 2, .taskDone 1, .exited 0, .taskDone 0, .joined 0] := by
+example : (after 0 C20_demo₇).k.unfinished = 0 ∧ (after 0 C20_demo₇).k.puts = 2 ∧ (after 0 C20_demo₇).k.exits = 1
+    ∧ (after 0 C20_demo₇).k.takes = 1 ∧ (after 0 C20_demo₇).k.tdCalls = 2
+    ∧ (after 0 C20_demo₇).k.joiners[0]? = some ⟨.waiting, .woken, true⟩ := by decide +kernel
+example : (after 0 (C20_demo₇ ++ [.run 0])).log = [.got 0 1, .handTook 2, .taskDone 1, .exited 0, .taskDone 0, .joined 0] := by
   decide +kernel
 -- a hand mark can be the step that releases a joiner (`C20_join_iff` with `i = take`)
-example : (after [.put 5, .join, .run 0]).k.joiners[0]? = some ⟨.waiting, .pending, false⟩
-    ∧ ((after [.put 5, .join, .run 0]).step .take).k.unfinished = 0
-    ∧ ((after [.put 5, .join, .run 0]).step .take).k.joiners[0]? = some ⟨.waiting, .woken, true⟩ := by decide +kernel
+example : (after 0 [.put 5, .join, .run 0]).k.joiners[0]? = some ⟨.waiting, .pending, false⟩
+    ∧ ((after 0 [.put 5, .join, .run 0]).step .take).k.unfinished = 0
+    ∧ ((after 0 [.put 5, .join, .run 0]).step .take).k.joiners[0]? = some ⟨.waiting, .woken, true⟩ := by decide +kernel
 -- `take` on an empty queue changes nothing
-example : (after [.spawn, .run 0, .take]).k.takes = 0 ∧ (after [.spawn, .run 0, .take]).log = [] := by decide +kernel
+example : (after 0 [.spawn, .run 0, .take]).k.takes = 0 ∧ (after 0 [.spawn, .run 0, .take]).log = [] := by decide +kernel
 -- an item taken by hand from under a woken getter: the consumer goes back to waiting, marks nothing
-example : ((after [.spawn, .run 0, .put 4, .take, .run 0]).k.cores.map fun x => (x.phase, x.marks)) = [(.waiting, 0)]
-    ∧ (after [.spawn, .run 0, .put 4, .take, .run 0]).k.unfinished = 0 := by decide +kernel
+example : ((after 0 [.spawn, .run 0, .put 4, .take, .run 0]).k.cores.map fun x => (x.phase, x.marks)) = [(.waiting, 0)]
+    ∧ (after 0 [.spawn, .run 0, .put 4, .take, .run 0]).k.unfinished = 0 := by decide +kernel
+
+/-! Bounded queues.  `Queue(maxsize=1)`: an item is put, a second `put_nowait` raises `QueueFull`; two producers start
+and block; a hand `take` frees the slot and wakes producer 0 (producer 1 keeps waiting: the wake-up is on its way);
+producer 0 is cancelled before it runs — it hands the wake-up to producer 1, puts nothing, and producer 1 puts. -/
+def C20_demo₈ : List Input := [.put 1, .put 2, .produce 5, .produce 6, .run 0, .run 0]
+def C20_demo₉ : List Input := C20_demo₈ ++ [.take]
+def C20_demo₁₀ : List Input := C20_demo₉ ++ [.cancelp 0]
+def C20_demo₁₁ : List Input := C20_demo₁₀ ++ [.run 0, .run 0]
+
+-- `C20_bounded_never_over_full`: the queue is full with one item, the second `put` changed nothing, both producers wait
+example : (after 1 C20_demo₈).k.items = [1] ∧ (after 1 C20_demo₈).k.full = true ∧ (after 1 C20_demo₈).k.hputs = 1
+    ∧ (after 1 C20_demo₈).k.prods = [⟨5, .waiting⟩, ⟨6, .waiting⟩] ∧ (after 1 C20_demo₈).putters = [0, 1]
+    ∧ (after 1 C20_demo₈).ready = [] := by decide +kernel
+example : (after 2 [.put 1, .put 2, .put 3, .produce 4, .run 0]).k.items = [1, 2]
+    ∧ (after 0 [.put 1, .put 2, .put 3, .produce 4, .run 0]).k.items = [1, 2, 3, 4] := by decide +kernel
+-- hypotheses of the first case of `C20_no_lost_putter_wakeup` with the queue not full: producer 1 waits with a pending
+-- putter while the wake-up of producer 0 is on its way
+example : (after 1 C20_demo₉).k.full = false ∧ (after 1 C20_demo₉).k.prods = [⟨5, .waiting⟩, ⟨6, .waiting⟩]
+    ∧ (after 1 C20_demo₉).paux.map (fun a => (a.gate, a.sched)) = [(.woken, true), (.pending, false)]
+    ∧ (after 1 C20_demo₉).putters = [1] ∧ (after 1 C20_demo₉).ready = [.producer 0] := by decide +kernel
+-- … and of its second case (a cancelled pending putter): the task is scheduled
+example : (after 1 (C20_demo₈ ++ [.cancelp 1])).paux.map (fun a => (a.gate, a.sched)) = [(.pending, false), (.cancelled, true)]
+    ∧ (after 1 (C20_demo₈ ++ [.cancelp 1])).ready = [.producer 1] := by decide +kernel
+-- hypotheses of `C20_cancelled_producer_puts_nothing` (`ins = demo₁₀`, `i = run 0`, producer 0, woken then cancelled): it
+-- ends `done false`, nothing entered the queue, the wake-up went to producer 1
+example : (after 1 C20_demo₁₀).k.prods[0]? = some ⟨5, .waiting⟩
+    ∧ ((after 1 C20_demo₁₀).step (.run 0)).k.prods[0]? = some ⟨5, .done false⟩
+    ∧ ((after 1 C20_demo₁₀).step (.run 0)).k.items = [] ∧ ((after 1 C20_demo₁₀).step (.run 0)).k.puts = 1
+    ∧ ((after 1 C20_demo₁₀).step (.run 0)).ready = [.producer 1] := by decide +kernel
+-- … and with a producer cancelled while its putter is still pending
+example : (after 1 (C20_demo₈ ++ [.cancelp 1])).k.prods[1]? = some ⟨6, .waiting⟩
+    ∧ ((after 1 (C20_demo₈ ++ [.cancelp 1])).step (.run 0)).k.prods[1]? = some ⟨6, .done false⟩
+    ∧ ((after 1 (C20_demo₈ ++ [.cancelp 1])).step (.run 0)).k.items = [1] := by decide +kernel
+-- hypotheses of `C20_producer_puts_once`: producer 1 gets through
+example : (after 1 (C20_demo₁₀ ++ [.run 0])).k.prods[1]? = some ⟨6, .waiting⟩
+    ∧ ((after 1 (C20_demo₁₀ ++ [.run 0])).step (.run 0)).k.prods[1]? = some ⟨6, .done true⟩ := by decide +kernel
+example : (after 1 C20_demo₁₁).k.items = [6] ∧ (after 1 C20_demo₁₁).k.puts = 2 ∧ (after 1 C20_demo₁₁).k.hputs = 1
+    ∧ (after 1 C20_demo₁₁).k.takes = 1 ∧ (after 1 C20_demo₁₁).k.unfinished = 1
+    ∧ (after 1 C20_demo₁₁).k.prods = [⟨5, .done false⟩, ⟨6, .done true⟩]
+    ∧ (after 1 C20_demo₁₁).log = [.handTook 1, .taskDone 0, .pCancel 0, .putDone 1 6] := by decide +kernel
+-- a consumer's `get()` wakes a putter as well; the block marks exactly once on a bounded queue, the joiner is released
+example : (after 1 [.put 1, .produce 5, .run 0, .spawn, .run 0, .join, .run 0, .run 0, .gate 0 false, .run 0]).log
+      = [.got 0 1, .putDone 0 5, .exited 0, .taskDone 1]
+    ∧ (after 1 [.put 1, .produce 5, .run 0, .spawn, .run 0, .join, .run 0, .run 0, .gate 0 false, .run 0]).k.joiners[0]?
+      = some ⟨.waiting, .pending, false⟩ := by decide +kernel
+-- a woken putter that finds the queue full again (a `put_nowait` slipped in) waits again
+example : (after 1 [.put 1, .produce 5, .run 0, .take, .put 2, .run 0]).k.prods = [⟨5, .waiting⟩]
+    ∧ (after 1 [.put 1, .produce 5, .run 0, .take, .put 2, .run 0]).putters = [0]
+    ∧ (after 1 [.put 1, .produce 5, .run 0, .take, .put 2, .run 0]).k.items = [2] := by decide +kernel
 
 end Taskpool
